@@ -176,6 +176,27 @@ def handle (op : String) (args : List String) (impl : String) : Option Verdict :
         | none => false
       | _ => false
     return ⟨model, ok, s!"hist:ops={min ops.length 6 / 2}:sequential={sequential}:executedSeen={run.any fun x => (List.range n).any fun k => lookup x.2.m k == Status.executed}"⟩
+  | "outcome", [acc, init, ns, faults] => some <| Id.run do
+    let some sts := (chars init).mapM statusOf | return bad
+    let some ns := natList ns | return bad
+    let some fl := bits faults | return bad
+    let accepted := acc == "accept"
+    let n := sts.length
+    let m := ((List.range n).zip sts).reverse
+    let s : Store := ⟨m, fl⟩
+    let v := outcomeStatus accepted
+    let s' := Sygma.C03.storeStatus s ns v
+    let model := (if accepted then "nil" else "err") ++ "|" ++ snapshot s'.m n ++ "|1|" ++
+      (if accepted then "-" else "TssFailMsg") ++ "|free"
+    let ok := match impl.splitOn "|" with
+      | [_, fin, _, _, mx] =>
+        match (chars fin).mapM statusOf with
+        | some fs =>
+          fs.length == n && mx == "free" &&
+          decide (POutcome m (faultFree s) ns v ((List.range n).zip fs) (List.range n))
+        | none => false
+      | _ => false
+    return ⟨model, ok, s!"outcome:{acc}:faultfree={faultFree s}:n={min ns.length 3}"⟩
   | "live", [_, _] => some ⟨"returned", impl == "returned", "live"⟩
   | _, _ => none
 
